@@ -7,6 +7,7 @@
 #include <string>
 #include <cstdlib>
 #include <unistd.h>
+#include <time.h>
 #include <occa.hpp>
 
 static std::string kernelSource(int n) {
@@ -20,7 +21,16 @@ int main(int argc, char **argv) {
   if (argc < 4) { std::cerr << "usage\n"; return 2; }
   const std::string mode = argv[1], how = argv[2];
   const int n = std::atoi(argv[3]);
-  // optional start delay in microseconds (C09)
+  // C09: all builders of a round wait for one wall-clock instant (C08_START_AT, seconds since the epoch),
+  // so that they reach the cold cache directory together; then an optional per-process delay in microseconds
+  if (const char *at = std::getenv("C08_START_AT")) {
+    const double t = std::atof(at);
+    for (;;) {
+      struct timespec ts;
+      clock_gettime(CLOCK_REALTIME, &ts);
+      if (ts.tv_sec + 1e-9 * ts.tv_nsec >= t) break;
+    }
+  }
   if (argc > 4) { usleep((useconds_t) std::atoi(argv[4])); }
   try {
     occa::device dev({{"mode", mode}});
